@@ -315,7 +315,7 @@ func (c *cconn) drain(w *World) {
 		}
 		if err != nil {
 			c.garbage = true
-			w.Violate(w.Plan.Prop, "wire", "conn %s: broker sent bytes the independent decoder rejects: %v", c.name, err)
+			w.Violate(w.Plan.Prop, "wire", "conn %s: broker sent bytes the independent decoder rejects: %v (segment %x, protocol level %d)", c.name, err, data, c.parser.Ver)
 		}
 	}
 	if !c.bclosed && c.c.Closed() {
@@ -522,7 +522,7 @@ func (w *World) issue(o *OpRec) {
 	case "sleep":
 		w.after(op.D.D(), "sleep", func() { w.complete(o, w.S.StepCnt) })
 		return
-	case "connect":
+	case "connect", "connect_silent", "connect_raw":
 		w.connect(cl, o)
 		return
 	}
@@ -774,14 +774,27 @@ func (w *World) connect(cl *cli, o *OpRec) {
 		ln = nd.WsLn
 		c.ws = newWSClient(w)
 	}
-	w.rec(&Rec{Kind: "open", C: cl.idx, Conn: id, Node: node, Op: o.Idx})
 	if ln == nil || !ln.Push(c.c) {
+		// the listener is closed: the connection attempt is refused, the broker never sees it
+		w.rec(&Rec{Kind: "note", C: cl.idx, Conn: id, Node: node, Op: o.Idx, Note: "connection refused (listener closed)"})
 		c.bclosed, c.cclosed, c.dead = true, true, true
 		w.finish(o, "closed")
 		return
 	}
+	w.rec(&Rec{Kind: "open", C: cl.idx, Conn: id, Node: node, Op: o.Idx})
 	if c.ws != nil {
 		c.ws.handshake(w, c)
+	}
+	if op.K == "connect_silent" {
+		w.complete(o, w.S.StepCnt)
+		return
+	}
+	if op.K == "connect_raw" {
+		// no CONNECT is sent: the broker cannot know the protocol version and answers in the 3.1.1 format
+		c.parser.Ver = 4
+		c.sendRaw(w, op.Raw, nil, o, 0)
+		c.markDelivered(w, o)
+		return
 	}
 	cid := cl.spec.ID
 	if op.ClientID != nil {
